@@ -231,24 +231,32 @@ func queryTable(c *Ctx, rule string) {
 	}
 }
 
-// addAtomic: an add either stores the value or fails leaving the tree unchanged.
+// addAtomic: an add either stores the value or fails leaving the tree unchanged.  The analysis is
+// rooted at the exported (*Tree).Add with its unexported helpers (terminalAdd / intermediateAdd /
+// slowAdd, however the work is split between them) entered on the path; the recursive Add of the next
+// level stays a call.
 func addAtomic(c *Ctx, rule string) {
 	P := c.P
 	fLB := P.Field("ctree", "Tree", "leafBranch")
-	ta := P.Method("ctree", "Tree", "terminalAdd")
-	ia := P.Method("ctree", "Tree", "intermediateAdd")
-	sa := P.Method("ctree", "Tree", "slowAdd")
-	if fLB == nil || ta == nil || ia == nil || sa == nil {
-		c.Unresolved(rule, "ctree.(*Tree).terminalAdd / intermediateAdd / slowAdd / Tree.leafBranch")
+	add := P.Method("ctree", "Tree", "Add")
+	if fLB == nil || add == nil || len(add.Params) != 3 {
+		c.Unresolved(rule, "ctree.(*Tree).Add / Tree.leafBranch")
 		return
 	}
-	c.Rule(rule, "terminalAdd / intermediateAdd / slowAdd: a path that returns an error made in that function contains no store to leafBranch and no map write before it; terminalAdd refuses a branch node (error, nothing stored) and otherwise stores exactly its value parameter; intermediateAdd and slowAdd refuse a non-empty leaf node (error, no descent, nothing stored) - stored paths stay prefix-free")
+	c.Rule(rule, "(*Tree).Add with its unexported helpers inlined, per node: the path ends here and the node is a branch => refused (an error made at this level, nothing stored, no descent); ends here otherwise => exactly the value parameter is stored, nil returned; the path continues and the node is a non-empty leaf => refused unchanged; continues through a branch or an empty node => no error of this level's own making (an add is refused only because an existing node is in the way - never after the level above has linked a new chain), errors come from the next level's Add only")
+	c.Analysed(fnName(add))
+	pathP, valP := ssa.Value(param(add, 1)), ssa.Value(param(add, 2))
 	isWrite := func(ev *Ev) bool {
 		return (strings.HasPrefix(ev.Label, "store:") && ev.Field == fLB) || strings.HasPrefix(ev.Label, "mapupdate:") || ev.Label == "builtin:delete"
 	}
+	isRec := lbl("call:" + fnName(add))
 	cls := func(e *PPA, st *State, rv RV) string {
 		r := e.Resolve(st, rv)
 		switch v := r.V.(type) {
+		case *ssa.Call:
+			if la, ok := lenArg(v); ok && e.Resolve(st, RV{r.F, la}).V == pathP {
+				return "PLEN"
+			}
 		case *ssa.Extract:
 			if t, ok := v.Tuple.(*ssa.TypeAssert); ok && v.Index == 1 && isNamed(t.AssertedType, "ctree", "branch") {
 				// the node was just made a branch on this path
@@ -278,54 +286,32 @@ func addAtomic(c *Ctx, rule string) {
 		}
 		return ""
 	}
-	// Add is a pure dispatcher: an error of its own, made at a deeper level of the recursion, would be
-	// returned after slowAdd has already linked the new chain one level up
-	if add := P.Method("ctree", "Tree", "Add"); add == nil {
-		c.Unresolved(rule, "ctree.(*Tree).Add")
-	} else {
-		c.Analysed(fnName(add))
-		n := 0
-		bad := ""
-		instrs(add, func(in ssa.Instruction) {
-			ret, ok := in.(*ssa.Return)
-			if !ok || len(ret.Results) != 1 {
-				return
-			}
-			n++
-			var chk func(v ssa.Value, d int) bool
-			chk = func(v ssa.Value, d int) bool {
-				if d > 4 {
-					return false
-				}
-				switch x := v.(type) {
-				case *ssa.Call:
-					g := staticCallee(&x.Call)
-					return g == ta || g == ia
-				case *ssa.Phi:
-					for _, e := range x.Edges {
-						if !chk(e, d+1) {
+	for _, plen := range []int64{0, 1, 2} {
+		for _, kind := range []string{"branch", "leaf", "empty"} {
+			b := map[string]bool{"ISBRANCH": kind == "branch", "EMPTY": kind == "empty", "!EMPTY": kind != "empty", "ALWAYS": true}
+			at := &Atoms{Class: cls, Bool: b, Int: map[string]int64{"PLEN": plen}}
+			e := &PPA{Cond: at.Cond, HeapForward: true, MaxDepth: 4,
+				Inline: func(fr *Frame, call ssa.CallInstruction, callee *ssa.Function) bool {
+					if callee.Pkg != add.Pkg || callee == add {
+						return false
+					}
+					if fbase(callee) == "isBranch" || fbase(callee) == "IsBranch" {
+						return true
+					}
+					// the unexported helpers the work is split into (they come back to Add for the next level, which
+					// is why the default inlining treats them as recursive); not the chain constructor
+					if isExportedFn(callee) || callee.Signature.Recv() == nil {
+						return false
+					}
+					for _, ci := range callsIn(callee) {
+						if staticCallee(ci.Common()) == callee {
 							return false
 						}
 					}
-					return len(x.Edges) > 0
-				}
-				return false
-			}
-			if !chk(ret.Results[0], 0) {
-				bad = "returns " + Expr(ret.Results[0]) + " at " + P.Pos(in.Pos())
-			}
-		})
-		c.Check(bad == "" && n > 0, rule, fnName(add), "Add only dispatches to terminalAdd / intermediateAdd (it makes no error of its own)", P.Pos(add.Pos()), bad)
-	}
-	for _, f := range []*ssa.Function{ta, ia, sa} {
-		c.Analysed(fnName(f))
-		for _, kind := range []string{"branch", "leaf", "empty"} {
-			b := map[string]bool{"ISBRANCH": kind == "branch", "EMPTY": kind == "empty", "!EMPTY": kind != "empty", "ALWAYS": true}
-			at := &Atoms{Class: cls, Bool: b}
-			e := &PPA{Cond: at.Cond, HeapForward: true, Watch: func(ev *Ev) bool {
-				return isWrite(ev) || strings.HasPrefix(ev.Label, "call:(*ctree.Tree).") || ev.Label == "call:ctree.newBranch"
-			}}
-			e.Run(f)
+					return true
+				},
+				Watch: func(ev *Ev) bool { return isWrite(ev) || isRec(ev) || ev.Label == "call:ctree.newBranch" }}
+			e.Run(add)
 			c.Paths += len(e.Paths)
 			c.Scen++
 			n := 0
@@ -338,32 +324,33 @@ func addAtomic(c *Ctx, rule string) {
 				rc := retClass(p.Rets[0])
 				ownErr := strings.HasPrefix(rc, "call:fmt.Errorf") || strings.HasPrefix(rc, "call:errors.New")
 				wrote := p.Has(isWrite)
-				descends := p.Has(func(ev *Ev) bool {
-					return ev.Label == "call:(*ctree.Tree).Add" || ev.Label == "call:(*ctree.Tree).slowAdd" || ev.Label == "call:ctree.newBranch"
-				})
-				ok := true
-				why := ""
-				if ownErr && (wrote || descends) {
-					ok, why = false, "an error path writes the tree or descends"
-				}
+				descends := p.Has(isRec) || p.Has(lbl("call:ctree.newBranch"))
+				ok, why := true, ""
 				switch {
-				case f == ta && kind == "branch":
-					if !ownErr || wrote {
+				case plen == 0 && kind == "branch":
+					if !ownErr || wrote || descends {
 						ok, why = false, "a branch node must be refused unchanged"
 					}
-				case f == ta:
+				case plen == 0:
 					si := p.Index(0, func(ev *Ev) bool { return strings.HasPrefix(ev.Label, "store:") && ev.Field == fLB })
-					if rc != "nil" || si < 0 || unwrap(p.Trace[si].Args[1].V) != ssa.Value(param(f, 1)) {
-						ok, why = false, "the value parameter must be stored and nil returned"
+					if rc != "nil" || si < 0 || unwrap(p.Trace[si].Args[1].V) != valP || descends {
+						ok, why = false, "the value parameter must be stored at this node and nil returned"
 					}
 				case kind == "leaf":
 					if !ownErr || wrote || descends {
 						ok, why = false, "a path through a leaf must be refused unchanged"
 					}
+				default:
+					if ownErr {
+						ok, why = false, "an add may be refused only because an existing node is in the way"
+					}
+					if !descends {
+						ok, why = false, "the path continues: the next level must be reached"
+					}
 				}
-				c.Check(ok, rule, fnName(f), "node is "+kind, P.Pos(f.Pos()), fmt.Sprintf("%s; returns %s, wrote=%v; path: %s", why, rc, wrote, p.String()))
+				c.Check(ok, rule, fnName(add), fmt.Sprintf("%d path elements left, node is %s", plen, kind), P.Pos(add.Pos()), fmt.Sprintf("%s; returns %s, wrote=%v, descends=%v; path: %s", why, rc, wrote, descends, p.String()))
 			}
-			c.Floor(fmt.Sprintf("%s/%s(%s)", rule, fnName(f), kind), n, 1)
+			c.Floor(fmt.Sprintf("%s/Add(%d,%s)", rule, plen, kind), n, 1)
 		}
 	}
 }
@@ -506,6 +493,7 @@ func contentWriters(c *Ctx, rule string) {
 	allowed := map[string]string{
 		"(*ctree.Leaf).Update":            "param",
 		"(*ctree.Tree).terminalAdd":       "param",
+		"(*ctree.Tree).Add":               "param",
 		"(*ctree.Tree).slowAdd":           "branch",
 		"(*ctree.Tree).WalkDeleted":       "nil",
 		"(*ctree.Tree).DeleteConditional": "nil",
